@@ -96,14 +96,15 @@ Qed.
 Lemma sort_tt_attrs : forall lang,
   sort_attrs (tt_attrs lang) = [(lit "xml:lang", lang); (lit "xmlns", ttml_ns); (lit "xmlns:tts", tts_ns)].
 Proof. intros lang. reflexivity. Qed.
+(* the writer model's namespace constants are the specification's literals *)
+Lemma model_ns_are_spec_ns : ttml_ns = spec_ttml_ns /\ tts_ns = spec_tts_ns.
+Proof. split; reflexivity. Qed.
 Theorem document_of_captions_root : forall legacy ids lang styles regions divs,
   forallb is_xml_char lang = true ->
   Forall (fun a => attrs_ok a []) styles -> Forall (fun a => attrs_ok a []) regions ->
   Forall (fun dv => attrs_ok (fst dv) [] /\ Forall (caption_ok ids) (snd dv)) divs ->
   exists rest, doc_parse (dfxp_document (doc_of_captions legacy ids lang styles regions divs))
-               = Some (EOpen (lit "tt") [(lit "xml:lang", lang); (lit "xmlns", ttml_ns); (lit "xmlns:tts", tts_ns)] :: rest)
-               /\ root_in_ns (lit "tt") ttml_ns
-                    (EOpen (lit "tt") [(lit "xml:lang", lang); (lit "xmlns", ttml_ns); (lit "xmlns:tts", tts_ns)] :: rest) = true.
+               = Some (EOpen (lit "tt") [(lit "xml:lang", lang); (lit "xmlns", spec_ttml_ns); (lit "xmlns:tts", spec_tts_ns)] :: rest).
 Proof.
   intros legacy ids lang styles regions divs Hl Hs Hr Hd.
   assert (K : skdoc_ok (doc_of_captions legacy ids lang styles regions divs)).
@@ -113,5 +114,5 @@ Proof.
     destruct (Hd x Hx) as [Ha Hp]. split; [exact Ha|]. cbn [kd_ps]. rewrite Forall_forall in *. intros p Hp'.
     apply in_map_iff in Hp'. destruct Hp' as (y & <- & Hy). destruct (Hp y Hy) as (A1 & A2 & A3).
     split; [exact A1|]. cbn [kp_text p_of_caption]. apply caption_payload_wellformed; assumption. }
-  destruct (skeleton_root _ K) as [rest E]. exists rest. split; [exact E|reflexivity].
+  destruct (skeleton_root _ K) as [rest E]. exists rest. exact E.
 Qed.
